@@ -432,12 +432,20 @@ class DefGen:
         """returns (list of Lines for a block body | literal text for a one-line body)"""
         r = self.r
         self.feat.add("docstring")
+        # docstring statements made of several tokens (D36 doc_multi_token, repaired in /repo)
+        multi = ['"one " "two"', "('in' ' parens')", '"a" \'b\' "c"']
         if oneline:
+            if r.random() < 0.15:
+                self.feat.add("multi_token_docstring")
+                return r.choice(multi)
             return r.choice(['"doc"', "'doc'", '"""Doc."""', "'''D'''", 'r"raw\\d"', '"with # hash"'])
         c = r.random()
         if c < 0.5:
             lit = r.choice(['"""Doc text."""', "'''Doc'''", '"doc"', "'doc'", 'r"""raw \\d"""',
                             '"""with \'quotes\' and # hash"""', '""""quoted" start"""', '"""def x(): pass"""', '""""""'])
+            if r.random() < 0.15:
+                self.feat.add("multi_token_docstring")
+                lit = r.choice(multi)
             return [Line("code", level, lit)], 1
         self.feat.add("multiline_docstring")
         q = r.choice(['"""', "'''", 'r"""'])
